@@ -407,6 +407,8 @@ def _configure_node(var, data, nodemap, model):
                 continue  # prefer (a) over (a /) when concept is missing
             edges.insert(0, ('/', target, epis))
         else:
+            if push and _has_node(target, nodemap):
+                push = False  # stale marker: the node is already defined
             if push:
                 nodemap[target] = (target, [])
                 target, _surprising = _configure_node(
@@ -418,6 +420,14 @@ def _configure_node(var, data, nodemap, model):
             edges.append((role, target, epis))
 
     return node, surprising
+
+
+def _has_node(var, nodemap):
+    """
+    Return ``True`` if *var* already has its own node in the tree.
+    """
+    node = nodemap.get(var)
+    return node is not None and node[0] == var
 
 
 def _find_next(data, nodemap):
